@@ -237,7 +237,7 @@ func ruleReservedPrefix(c *chk.Ctx) {
 func ruleMapAssign(c *chk.Ctx) {
 	n := 0
 	for _, f := range pkgFuncs(c, c.M.HandlerPkg) {
-		if f.Parent() != nil || f.Name() != "Assign" || f.Signature.Recv() == nil || f.Synthetic != "" {
+		if f.Parent() != nil || ir.BaseName(f) != "Assign" || f.Signature.Recv() == nil || f.Synthetic != "" {
 			continue
 		}
 		n++
@@ -390,7 +390,7 @@ func ruleMapAssign(c *chk.Ctx) {
 func ruleSortedNames(c *chk.Ctx) {
 	n := 0
 	for _, f := range pkgFuncs(c, c.M.HandlerPkg) {
-		if f.Parent() != nil || f.Name() != "Names" || f.Signature.Recv() == nil || f.Synthetic != "" {
+		if f.Parent() != nil || ir.BaseName(f) != "Names" || f.Signature.Recv() == nil || f.Synthetic != "" {
 			continue
 		}
 		n++
